@@ -105,10 +105,13 @@ def build_facts(config="all", repo=REPO, verbose=True):
         if os.path.exists(os.path.join(out, "ruint.json")) and os.path.exists(os.path.join(out, "ok")):
             return out, {"cached": True, "tree": th, "config": config}
         t0 = time.time()
-        # drop stale fact dirs of the same configuration
-        for d in os.listdir(CACHE):
-            if d.startswith("facts-%s-" % config) and not d[len("facts-%s-" % config):].count("-"):
-                shutil.rmtree(os.path.join(CACHE, d), ignore_errors=True)
+        # drop stale fact dirs of the same configuration, but keep the few most recent ones: concurrent runs on
+        # other trees (self-tests in scratch worktrees, parallel checks) must not evict each other's facts mid-read
+        same = sorted((d for d in os.listdir(CACHE)
+                       if d.startswith("facts-%s-" % config) and not d[len("facts-%s-" % config):].count("-")),
+                      key=lambda d: os.path.getmtime(os.path.join(CACHE, d)), reverse=True)
+        for d in same[KEEP_FACT_DIRS:]:
+            shutil.rmtree(os.path.join(CACHE, d), ignore_errors=True)
         os.makedirs(out, exist_ok=True)
         target = os.path.join(CACHE, "target")
         # force cargo to re-run the driver for the workspace members
@@ -145,16 +148,27 @@ def build_facts(config="all", repo=REPO, verbose=True):
         lock.close()
 
 
+KEEP_FACT_DIRS = 6
+
+
 def load(config="all", repo=REPO):
-    out, info = build_facts(config, repo)
-    res = {}
-    for name in ("ruint", "ruint_macro"):
-        p = os.path.join(out, name + ".json")
-        if os.path.exists(p):
-            with open(p) as fh:
-                res[name] = json.load(fh)
-    res["_info"] = info
-    return res
+    for attempt in range(3):
+        out, info = build_facts(config, repo)
+        res = {}
+        try:
+            for name in ("ruint", "ruint_macro"):
+                p = os.path.join(out, name + ".json")
+                if os.path.exists(p):
+                    with open(p) as fh:
+                        res[name] = json.load(fh)
+        except (OSError, ValueError):
+            res = {}
+        if "ruint" in res:
+            res["_info"] = info
+            return res
+        # the directory vanished between build and read (another run evicted it): rebuild
+        shutil.rmtree(out, ignore_errors=True)
+    raise RuntimeError("mirfacts: facts for config %s could not be read (concurrent eviction?)" % config)
 
 
 if __name__ == "__main__":
